@@ -233,7 +233,7 @@ func c14ECH() *explore.Scenario {
 			}
 			prep := g.prepare()
 			// a caller that removed the SNI extension from the parrot: the public-name rule must not depend on it
-			if x.Choose("removesni", 2) == 1 {
+			if rm := x.Choose("removesni", 3); rm != 0 { // 1 after an explicit BuildHandshakeState, 2 before any build
 				if isGolang(g.ID) {
 					r.Obs = "n/a"
 					return
@@ -245,12 +245,14 @@ func c14ECH() *explore.Scenario {
 							return err
 						}
 					}
-					if err := u.BuildHandshakeState(); err != nil {
-						return err
+					if rm == 1 {
+						if err := u.BuildHandshakeState(); err != nil {
+							return err
+						}
 					}
 					return u.RemoveSNIExtension()
 				}
-				what += " RemoveSNIExtension"
+				what += fmt.Sprintf(" RemoveSNIExtension(%s)", []string{"", "after-build", "before-build"}[rm])
 			}
 			hs := peer.Run(ccfg, g.ID, scfg, peer.Opts{Prepare: prep, Echo: true})
 			if hs.CPanic != "" {
